@@ -320,5 +320,24 @@ def limit_orders_taken_to_the_starting_price():
 ALL.append(limit_orders_taken_to_the_starting_price)
 
 
+def second_partial_cancel_overtaken_by_fill():
+    """a partial cancel succeeds; a second size reduction, legal when requested, is overtaken by a partial fill inside the cancel
+    latency: it exceeds what remains when it executes and takes exactly the remainder (C04-m9 shape: a clamp computed from
+    size - matched forgets the earlier cancellation, the remainder goes negative and the order never completes)"""
+    ups = [
+        update(T0, two(), acts={"0": [create(0, 0, 1, "BACK", 3.0, 10.0), ["place", "t0", None, False]]}),
+        update(T0 + 200, two(), acts={"0": [["cancel", "t0", 4.0, False]]}),
+        update(T0 + 500, two()),
+        update(T0 + 600, two(), acts={"0": [["cancel", "t0", 6.0, False]]}),
+        update(T0 + 700, two(trd=[(3.0, 10.0)])),
+        update(T0 + 800, two(trd=[(3.0, 10.0)])),
+        update(T0 + 1800, two(trd=[(3.0, 10.0)])),
+    ]
+    return scenario([market(101, ups)])
+
+
+ALL.append(second_partial_cancel_overtaken_by_fill)
+
+
 def all_scenarios():
     return [f() for f in ALL]
